@@ -202,14 +202,14 @@ REGISTRY = {
         undecided_clauses=["thread-locality is a frame condition (only attribute `config` of the module's threading.local is written) plus the CPython assumption; no schedule is explored"],
     ),
     "C15": dict(
-        packs=["c15"],
+        packs=["c15", "par4"],
         level="proof",
         replay=dict(script="replay/c15.py", args=["search", "12"], timeout=600),
         bounded=[dict(name="n_jobs-small-scope", script="replay/c15.py", args=["search", "12"],
                       bound="n_jobs in -12..12 x cpus in {1,2,3,8} x 4 backends x nesting level {0,1,None}; nested backends to depth 4; "
                             "loky cpu_count on 192 environment combinations")],
         trusted=["a pool / executor created with size k runs at most k tasks at once (ThreadPool, multiprocessing, loky)"],
-        assumptions=["Parallel.__call__'s n_jobs == 1 sequential branch is under contract in the dispatcher pack (C01), not here",
+        assumptions=["Parallel.__call__'s n_jobs == 1 branch and _get_sequential_output (calling thread, in order) come from the dispatcher pack (par4)",
                      "os.sched_getaffinity / cgroup readers / physical-core probes are externals (arbitrary integers)"],
         undecided_clauses=["'never executes more tasks simultaneously' is reduced to 'every pool is created with exactly the resolved n_jobs'; the pools' own concurrency bound is assumed"],
     ),
